@@ -338,9 +338,12 @@ COQ_ARGS = ["-Q", str(COQ / "theories"), "NT", "-Q", str(COQ / "gen"), "NTGen", 
             "-w", "-notation-overridden,-deprecated-hint-without-locality,-deprecated-instance-without-locality"]
 
 
-def run_coqc(vfile: Path, timeout=600):
-    p = subprocess.run(["coqc", *COQ_ARGS, str(vfile)], capture_output=True, text=True, timeout=timeout,
-                       cwd=str(vfile.parent))
+def run_coqc(vfile: Path, timeout=1800):
+    try:
+        p = subprocess.run(["coqc", *COQ_ARGS, str(vfile)], capture_output=True, text=True, timeout=timeout,
+                           cwd=str(vfile.parent))
+    except subprocess.TimeoutExpired:
+        return 124, "", f"coqc timed out after {timeout} s on {vfile.name} (case file too large for this machine load?)"
     return p.returncode, p.stdout, p.stderr
 
 
